@@ -1,24 +1,35 @@
 #!/bin/bash
-# Runs every stored seeded change against the quick tier of its property's check (and of a second check where meta names one).
-# Writes /verif/seeded/RESULTS.txt. Applies patches to /repo and reverts them: run nothing else meanwhile.
+# Runs every stored seeded change against the quick tier of its property's check (and of the first check named in meta.json when that
+# is another one).  Writes /verif/seeded/RESULTS.txt.  Works on scratch worktrees of /repo (three lanes in parallel) with VERIF_REPO /
+# VERIF_OUT set, so neither /repo nor /verif/evidence is touched.
 cd /verif
-out=seeded/RESULTS.txt
-: > $out
-for d in $(ls seeded | grep -E '^C[0-9]+[a-z]$'); do
-  prop=${d:0:3}
-  extra=$(python3 -c "
-import json,re
-m=json.load(open('seeded/$d/meta.json'))
-ids=re.findall(r'C\d\d', m.get('detected_by',''))
-ids=[i for i in dict.fromkeys(ids) if i!='$prop']
-print(' '.join(ids[:1]))")
-  first=$(python3 -c "
+lanes=${LANES:-3}
+root=/scratch/matrix
+rm -rf $root/out*; mkdir -p $root
+for k in $(seq 1 $lanes); do
+  git -C /repo worktree remove --force $root/repo$k 2>/dev/null
+  git -C /repo worktree add --detach -f $root/repo$k HEAD >/dev/null 2>&1 || exit 2
+  cp /repo/src/cutadapt/_version.py $root/repo$k/src/cutadapt/ 2>/dev/null
+done
+ls seeded | grep -E '^C[0-9]+[a-z]$' > $root/all.txt
+lane() {
+  k=$1
+  export VERIF_REPO=$root/repo$k VERIF_OUT=$root/out$k
+  : > $root/results$k.txt
+  awk -v k=$k -v n=$lanes 'NR % n == k % n' $root/all.txt | while read d; do
+    prop=${d:0:3}
+    first=$(python3 -c "
 import json,re
 m=json.load(open('seeded/$d/meta.json'))
 ids=re.findall(r'C\d\d', m.get('detected_by',''))
 print(ids[0] if ids else '$prop')")
-  checks="$first"
-  [ "$first" != "$prop" ] && checks="$prop $first"
-  tools/run_seeded.sh $d "$checks" 2>&1 | grep -E "^$d " | cut -c1-200 >> $out
-done
-cat $out | awk '{print $1, $2, $3}' 
+    checks="$first"
+    [ "$first" != "$prop" ] && checks="$prop $first"
+    tools/run_seeded.sh $d "$checks" 2>&1 | grep -E "^$d " | cut -c1-200 >> $root/results$k.txt
+  done
+}
+for k in $(seq 1 $lanes); do lane $k & done
+wait
+cat $root/results*.txt | sort > seeded/RESULTS.txt
+for k in $(seq 1 $lanes); do git -C /repo worktree remove --force $root/repo$k; done
+awk '{print $1, $2, $3}' seeded/RESULTS.txt
